@@ -362,7 +362,7 @@ def run(ctx):
             ctx.violation(ident, what, rep)
     ctx.extra['oracle']['failure_kinds'] = sorted(kinds)
 
-    cli_glue(ctx, thorough)
+    cli_glue(ctx, thorough, built)
 
     return ctx.finish(
         level='proof',
@@ -373,7 +373,7 @@ def run(ctx):
                  'compiler.unix_args_to_native (identity for GCC), Windows isabs, os.path.realpath beyond lexical normalisation '
                  '(non-existent components, cwd=/), arguments containing newline/NUL, repr'],
         assumptions=['Print Assumptions: all property theorems closed under the global context (no axioms)',
-                     'generated arguments contain no newline (regex . and $), no NUL and no code point below 4'],
+                     'generated arguments contain no newline (regex . and $), no NUL and no code point below 5'],
         rule='seeded generator of operation sequences (+=, extend, append, insert, set/del/get item, copy, re-init, len, append_direct, '
              'extend_direct, extend_preserving_lflags, +, reversed +, ==, in, remove, reversed, to_native with/without copy, list()) over an '
              'alphabet of argument kinds covering every table row and both regexes, for the three table sets (CLike, base, D), GNU-like '
@@ -383,31 +383,58 @@ def run(ctx):
 
 
 # ------------------------------------------------------------------ CLI glue
-MESON_BUILD = '''project('p', 'c')
-add_global_arguments(%(glob)s, language: 'c')
-add_project_arguments(%(proj)s, language: 'c')
-inc = include_directories(%(incs)s)
-dep = declare_dependency(compile_args: %(depargs)s, include_directories: include_directories(%(depincs)s))
-executable('e', 'main.c', c_args: %(targs)s, include_directories: inc, dependencies: dep%(implicit)s)
-'''
+# Generated projects: the ARGS of the compile statement in build.ninja are compared with the
+# Coq model of the backend's increment order (Arglist/Backend.v, entry points bk / ebk) and
+# checked against the property clauses directly.
+HOSTILE = ['-D_FILE_OFFSET_BITS=64', '-Wall', '-g', '-fPIC', '-O0', '-Winvalid-pch', '-U_FILE_OFFSET_BITS', '-DNDEBUG', '-pipe', '-pthread']
+DEFS = ['-DA', '-DB', '-DA=1', '-UA', '-DC=2', '-UB']
+KINDS = {'executable': ('e', '%s.p'), 'static_library': ('s', 'lib%s.a.p'), 'shared_library': ('s', 'lib%s.so.p')}
 
 
 def ml(l):
     return '[' + ', '.join("'" + a + "'" for a in l) + ']'
 
 
+def inc_expr(o):
+    return 'include_directories(%s%s)' % (', '.join("'" + d + "'" for d in o['dirs']), ', is_system: true' if o['system'] else '')
+
+
+def write_project(d, spec):
+    src = os.path.join(d, 'src')
+    os.makedirs(os.path.join(src, 'sub'))
+    for n in ('i1', 'i2', 'i3', 'i4'):
+        os.makedirs(os.path.join(src, n), exist_ok=True)
+    name = KINDS[spec['kind']][0]
+    lines = ["project('p', 'c')"]
+    if spec['glob']:
+        lines.append("add_global_arguments(%s, language: 'c')" % ml(spec['glob']))
+    for chunk in spec['proj']:
+        lines.append("add_project_arguments(%s, language: 'c')" % ml(chunk))
+    for k, o in enumerate(spec['tincs']):
+        lines.append('inc%d = %s' % (k, inc_expr(o)))
+    for k, dp in enumerate(spec['deps']):
+        lines.append('dep%d = declare_dependency(compile_args: %s%s)' % (
+            k, ml(dp['args']), (', include_directories: ' + inc_expr(dp['inc'])) if dp['inc'] else ''))
+    tgt = "%s('%s', 'main.c', c_args: %s, include_directories: [%s], dependencies: [%s]%s)" % (
+        spec['kind'], name, ml(spec['targs']), ', '.join('inc%d' % k for k in range(len(spec['tincs']))),
+        ', '.join('dep%d' % k for k in range(len(spec['deps']))),
+        '' if spec['implicit'] else ', implicit_include_directories: false')
+    body = 'int f(void) { return 0; }\n' if spec['kind'] != 'executable' else 'int main(void) { return 0; }\n'
+    if spec['subdir']:
+        lines.append("subdir('sub')")
+        open(os.path.join(src, 'sub', 'meson.build'), 'w').write(tgt + '\n')
+        open(os.path.join(src, 'sub', 'main.c'), 'w').write(body)
+    else:
+        lines.append(tgt)
+        open(os.path.join(src, 'main.c'), 'w').write(body)
+    open(os.path.join(src, 'meson.build'), 'w').write('\n'.join(lines) + '\n')
+    return src
+
+
 def cli_one(job):
     """configure one generated project and return the ARGS of its compile statement"""
     d, spec = job
-    src = os.path.join(d, 'src')
-    os.makedirs(src)
-    for inc in set(spec['incs'] + spec['depincs']):
-        os.makedirs(os.path.join(src, inc), exist_ok=True)
-    open(os.path.join(src, 'main.c'), 'w').write('int main(void) { return 0; }\n')
-    open(os.path.join(src, 'meson.build'), 'w').write(MESON_BUILD % {
-        'glob': ml(spec['glob']), 'proj': ml(spec['proj']), 'incs': ', '.join("'" + i + "'" for i in spec['incs']),
-        'depargs': ml(spec['depargs']), 'depincs': ', '.join("'" + i + "'" for i in spec['depincs']), 'targs': ml(spec['targs']),
-        'implicit': '' if spec['implicit'] else ', implicit_include_directories: false'})
+    src = write_project(d, spec)
     opt = ['-Dc_args=' + ' '.join(spec['optargs'])] if spec['optargs'] else []
     r = meson_cli(['setup'] + opt + [os.path.join(d, 'build'), src], timeout=240)
     if r.returncode != 0:
@@ -420,58 +447,116 @@ def cli_one(job):
     return {'args': a.group(1).split(' ') if a else []}
 
 
-def cli_glue(ctx, thorough):
-    """ARGS of compile statements in build.ninja for projects with duplicated settings at several
-    levels: the clauses are evaluated on what the backend wrote (no model)."""
+def inc_args(o):
+    """(sargs, bargs) of every directory of one include object, as ninjabackend.generate_inc_dir spells them"""
+    flag = '-isystem' if o['system'] else '-I'
+    out = []
+    for dname in o['dirs']:
+        s = [flag + ('../src' if dname == '.' else '../src/' + dname)]
+        b = [flag + '.'] if dname == '.' else []          # the build dir of an include dir exists only for '.'
+        out.append((s, b))
+    return out
+
+
+def predict_tsrc(spec, ref_args):
+    """the increments of Arglist/Backend.v for a generated project; compiler-specific fixed arguments are
+    taken from the reference project of the same target kind"""
+    noni = [a for a in ref_args if not a.startswith('-I')]
+    k = next((i for i, a in enumerate(noni) if a[:2] in ('-D', '-W', '-O', '-g') or a.startswith('-std')), len(noni))
+    base, fixed = noni[:k], noni[k:]
+    pic = []
+    if spec['kind'] != 'executable' and fixed[-1:] == ['-fPIC']:
+        fixed, pic = fixed[:-1], ['-fPIC']
+    name, privfmt = KINDS[spec['kind']]
+    sub = 'sub/' if spec['subdir'] else ''
+    objs = list(spec['tincs']) + [dp['inc'] for dp in spec['deps'] if dp['inc']]
+    lists = lambda ls: S1.join(rl(x) for x in ls)
+    enc_obj = lambda o: S1.join(rl(x) for sb in inc_args(o) for x in sb) + '\x04'
+    return [lists([base]), lists([[a] for a in fixed]), rl([a for ch in spec['proj'] for a in ch]),
+            rl(spec['glob']), rl(spec['optargs']), rl(pic), lists([dp['args'] for dp in spec['deps']]), '', '',
+            '\x03'.join(enc_obj(o) for o in objs), rl(spec['targs']),
+            rl(['-I../src' + ('/sub' if spec['subdir'] else '')] if spec['implicit'] else []),
+            rl(['-I' + ('sub' if spec['subdir'] else '.')] if spec['implicit'] else []),
+            rl(['-I' + sub + privfmt % name])]
+
+
+def gen_cli_spec(rng, k):
+    pool = DEFS + (HOSTILE if rng.random() < 0.6 else [])
+    pick = lambda lo, hi: [rng.choice(pool) for _ in range(rng.randint(lo, hi))]
+    names = ['i1', 'i2', 'i3', 'i4', '.']
+    obj = lambda: {'dirs': rng.sample(names, rng.randint(1, 3)), 'system': rng.random() < 0.3}
+    return {'kind': rng.choice(['executable', 'executable', 'static_library', 'shared_library']),
+            'subdir': rng.random() < 0.35, 'implicit': rng.random() < 0.7,
+            'optargs': pick(0, 2), 'glob': pick(0, 2), 'proj': [pick(0, 3)], 'targs': pick(0, 4),
+            'tincs': [obj() for _ in range(rng.choice([0, 1, 1, 2]))],
+            'deps': [{'args': pick(0, 3), 'inc': obj() if rng.random() < 0.6 else None} for _ in range(rng.choice([0, 1, 1, 2, 3]))]}
+
+
+def cli_glue(ctx, thorough, built):
     if shutil.which('cc') is None and shutil.which('gcc') is None:
         ctx.extra['cli_glue'] = 'skipped: no C compiler'
         return
     rng = ctx.rng
-    n = 40 if thorough else 6
-    defs = ['-DA', '-DB', '-DA=1', '-UA', '-DC=2', '-UB']
+    n = 120 if thorough else 14
     base = ctx.mkscratch()
-    jobs = []
-    for k in range(n):
-        pick = lambda lo, hi: [rng.choice(defs) for _ in range(rng.randint(lo, hi))]
-        incs = rng.sample(['i1', 'i2', 'i3'], rng.randint(0, 3))
-        spec = {'optargs': pick(0, 2), 'glob': pick(0, 2), 'proj': pick(0, 3), 'targs': pick(0, 3), 'depargs': pick(0, 2),
-                'incs': incs, 'depincs': rng.sample(['i1', 'i3', 'i4'], rng.randint(0, 2)), 'implicit': rng.random() < 0.7}
-        jobs.append((os.path.join(base, 'cli%d' % k), spec))
-    res = pmap(cli_one, jobs)
-    ok = 0
-    for (d, spec), r in zip(jobs, res):
+    empty = {'subdir': False, 'implicit': True, 'optargs': [], 'glob': [], 'proj': [[]], 'targs': [], 'tincs': [], 'deps': []}
+    refs = [(os.path.join(base, 'ref-' + kind), dict(empty, kind=kind)) for kind in KINDS]
+    jobs = [(os.path.join(base, 'cli%d' % k), gen_cli_spec(rng, k)) for k in range(n)]
+    res = pmap(cli_one, refs + jobs)
+    ref = {}
+    for (d, spec), r in zip(refs, res[:len(refs)]):
         if 'error' in r:
             ctx.extra.setdefault('cli_errors', []).append(r['error'][-300:])
+        else:
+            ref[spec['kind']] = r['args']
+    good, cases = [], []
+    for (d, spec), r in zip(jobs, res[len(refs):]):
+        if 'error' in r or spec['kind'] not in ref:
+            ctx.extra.setdefault('cli_errors', []).append(r.get('error', 'no reference')[-300:])
             continue
-        ok += 1
+        t = predict_tsrc(spec, ref[spec['kind']])
+        good.append((spec, r['args'], t))
+        cases += [('bk', ['C'] + t), ('ebk', ['C'] + t)]
+    model = ctx.run_model(cases, shards=1) if (built and cases) else None
+    shapes = {}
+    for k, (spec, args, t) in enumerate(good):
         ctx.cov['evaluations'] += 1
-        args = r['args']
+        ctx.count(('cli', json.dumps(spec, sort_keys=True)))
+        shapes[spec['kind']] = shapes.get(spec['kind'], 0) + 1
+        if model is not None:
+            for fn, got in (('bk', model[2 * k]), ('ebk', model[2 * k + 1])):
+                if pl(got) != args and len(ctx.disagreements) < 200:
+                    ctx.disagreements.append({'case': [fn, ['C'] + t], 'cli_project': spec, 'implementation': rl(args), 'model': got})
         fails = []
-        # precedence order of the sources (backends.py:1023-1134, ninjabackend.py:3129-3211): option c_args are
-        # added after project and global arguments, dependency args later, per-target c_args last
-        added = spec['proj'] + spec['glob'] + spec['optargs'] + spec['depargs'] + spec['targs']
-        dargs = [a for a in args if a[:2] in ('-D', '-U') and a in defs]
-        # eager meaning of the adds for the override-type appended arguments: last occurrence survives, in add order
+        # the clauses, evaluated on what the backend wrote.  Sources in order of addition (backends.py:1023-1134,
+        # ninjabackend.py:3139-3222): fixed/option-derived, project, global, c_args option, -fPIC, dependencies in
+        # REVERSED declaration order, per-target c_args.
+        ref_noni = [a for a in ref[spec['kind']] if not a.startswith('-I')]
+        added = ref_noni[:-1] if (ref_noni[-1:] == ['-fPIC']) else list(ref_noni)
+        added += [a for ch in spec['proj'] for a in ch] + spec['glob'] + spec['optargs']
+        added += ['-fPIC'] if ref_noni[-1:] == ['-fPIC'] else []
+        for dp in reversed(spec['deps']):
+            added += dp['args']
+        added += spec['targs']
+        isov = lambda a: a[:2] in ('-D', '-U')
         exp = []
-        for a in reversed(added):
-            if a not in exp:
+        for a in reversed(added):                 # last added occurrence of a define survives, in order of addition
+            if isov(a) and a not in exp:
                 exp.append(a)
         exp.reverse()
-        if dargs != exp:
-            fails.append({'clause': 'defines: last added occurrence survives, in order of addition', 'expected': exp, 'got': dargs})
+        got = [a for a in args if isov(a)]
+        if got != exp:
+            fails.append({'clause': 'defines: the last added occurrence survives, in order of addition', 'expected': exp, 'got': got})
+        plain = lambda xs: [a for a in xs if not isov(a) and not a.startswith(('-I', '-isystem')) and a not in ('-pipe', '-pthread')]
+        if plain(args) != plain(added):
+            fails.append({'clause': 'never-de-duplicated arguments keep order and multiplicity', 'expected': plain(added), 'got': plain(args)})
+        for a in ('-pipe', '-pthread'):
+            if args.count(a) != (1 if a in added else 0):
+                fails.append({'clause': 'a once-only argument appears once', 'arg': a, 'got': args})
         iargs = [a for a in args if a.startswith('-I')]
         if len(set(iargs)) != len(iargs):
             fails.append({'clause': 'identical -I survive once', 'got': iargs})
-        # target include dirs (own order) come before the dependency's
-        def pos(name):
-            cands = [i for i, a in enumerate(iargs) if a.rstrip('/').endswith('/' + name) and '/src' in a or a == '-I../src/' + name]
-            return cands[0] if cands else None
-        order = [x for x in spec['incs'] + [i for i in spec['depincs'] if i not in spec['incs']]]
-        ps = [pos(x) for x in order]
-        if None in ps or ps != sorted(ps):
-            fails.append({'clause': 'include_directories order: target dirs in their own order, then dependency dirs', 'expected_order': order, 'got': iargs})
-        ctx.count(('cli', json.dumps(spec, sort_keys=True)))
         for f in fails:
             ctx.violation('C13:cli:' + json.dumps(spec, sort_keys=True), 'build.ninja ARGS break the contract for project %s: %s'
                           % (json.dumps(spec), json.dumps(f)), {'cli_project': spec, 'failure': f, 'ARGS': args})
-    ctx.extra['cli_glue'] = {'projects': n, 'configured': ok}
+    ctx.extra['cli_glue'] = {'projects': n, 'configured': len(good), 'compared_with_backend_model': model is not None, 'target_kinds': shapes}
